@@ -829,9 +829,32 @@ func c10R4(c *Ctx) {
 		h := Set(c.Fn(r, pStream, "(*ProcessorNode).handleProcessedRecord"))
 		_ = h
 		cnt := 0
+		// a helper of the same package all of whose non-nil error returns are FatalError(...)
+		allFatal := func(h *ssa.Function) int {
+			if h == nil || h.Pkg != fn.Pkg || len(h.Blocks) == 0 {
+				return 0
+			}
+			n := 0
+			for _, hr := range kit.Returns(h) {
+				hv := kit.RetVal(hr, len(hr.Results)-1)
+				if kit.IsNilConst(hv) {
+					continue
+				}
+				hc, isC := hv.(*ssa.Call)
+				if !isC || kit.CalleeOf(hc.Common()) != fatal {
+					return 0
+				}
+				n++
+			}
+			return n
+		}
 		for _, ret := range kit.Returns(fn) {
-			if call, ok := kit.RetVal(ret, 0).(*ssa.Call); ok && kit.CalleeOf(call.Common()) == fatal {
-				cnt++
+			if call, ok := kit.RetVal(ret, 0).(*ssa.Call); ok {
+				if kit.CalleeOf(call.Common()) == fatal {
+					cnt++
+				} else {
+					cnt += allFatal(call.Call.StaticCallee())
+				}
 			}
 		}
 		c.R.Check(cnt >= 2, r, "v1 ProcessorNode.Run: a record-count mismatch is fatal", c.Pos(fn.Pos()), "FatalError returns", "the record-count mismatch no longer returns cerrors.FatalError", true)
